@@ -11,7 +11,6 @@ import (
 	"sync"
 
 	"google.golang.org/protobuf/proto"
-	"google.golang.org/protobuf/types/descriptorpb"
 	"google.golang.org/protobuf/types/pluginpb"
 
 	"verif/harness/corpus"
@@ -103,7 +102,7 @@ func request(f *corpus.File, param string) *pluginpb.CodeGeneratorRequest {
 	return &pluginpb.CodeGeneratorRequest{
 		FileToGenerate: []string{f.ProtoPath()},
 		Parameter:      proto.String(param),
-		ProtoFile:      []*descriptorpb.FileDescriptorProto{f.Descriptor()},
+		ProtoFile:      f.AllDescriptors(),
 	}
 }
 
@@ -170,6 +169,10 @@ func buildVariant(v Variant, files []*corpus.File, root, bindir, repo, harnessDi
 		base = filepath.Join(bindir, "protoc-gen-gogo")
 	}
 	fm := filepath.Join(bindir, "protoc-gen-fastmarshal")
+	dirOf := map[string]string{}
+	for _, f := range files {
+		dirOf[f.Base] = f.Dir()
+	}
 	for _, f := range files {
 		if f.GoogleOnly && v.Runtime() != "google" {
 			continue
@@ -215,7 +218,7 @@ func buildVariant(v Variant, files []*corpus.File, root, bindir, repo, harnessDi
 		wg.Add(1)
 		go func(st *fileStatus) {
 			defer wg.Done()
-			cmd := exec.Command("go", "build", "./"+st.File+"/...")
+			cmd := exec.Command("go", "build", "./"+dirOf[st.File]+"/...")
 			cmd.Dir = root
 			cmd.Env = goEnv()
 			out, err := cmd.CombinedOutput()
@@ -242,7 +245,7 @@ func buildVariant(v Variant, files []*corpus.File, root, bindir, repo, harnessDi
 	var sb strings.Builder
 	sb.WriteString("package main\n\nimport (\n\t\"verif/harness/gendriver\"\n")
 	for _, b := range imports {
-		fmt.Fprintf(&sb, "\t_ \"gencorpus/%s\"\n", b)
+		fmt.Fprintf(&sb, "\t_ \"gencorpus/%s\"\n", dirOf[b])
 	}
 	fmt.Fprintf(&sb, ")\n\nfunc main() { gendriver.Main(%q) }\n", v.Runtime())
 	_ = os.MkdirAll(filepath.Join(root, "driver"), 0o755)
